@@ -1,6 +1,7 @@
 import Pycoin.Model.Validate
 import Pycoin.Proofs.SighashFields
 import Pycoin.Props.C04
+import Pycoin.Proofs.TamperKinds
 /-!
 C06 — Validation is tamper-evident: signatures bind what their hash type commits.
 
@@ -39,6 +40,25 @@ theorem C06_guard_consistent (s : State) (idx : Nat) (o : TxOut) (h : s.us[idx]?
     rw [List.getElem?_eq_none hle] at h
     cases h
   simp [hcb, hlt, h]
+
+/-- C06.is_solution_ok_catches: `Tx.is_solution_ok` turns `ScriptError` — and nothing else — into `False` (the `except` clauses of
+the function as they are in the source now, `Gen/Validate.lean`): this is the case split of `isSolutionOk` (`scriptError` ↦
+`False`, any other exception escapes, nothing is ever turned into `True`) -/
+theorem C06_is_solution_ok_catches : Gen.Validate.isSolutionOkCatches = ["ScriptError"] := rfl
+
+/-- C06.never_true_on_exception: whatever the interpreter does, `is_solution_ok` returns `True` only when `check_solution`
+returned normally -/
+theorem C06_true_only_if_check_returns (V : VM) (c : Coin) (s : State) (idx : Nat)
+    (h : isSolutionOk V c s idx = .ok true) : checkSolution V c s idx = .ok := by
+  unfold isSolutionOk at h
+  split at h
+  · cases h
+  · split at h
+    · cases h
+    · split at h
+      · assumption
+      · cases h
+      · cases h
 
 /-! ## how the unspents get populated -/
 
@@ -501,17 +521,6 @@ theorem segwitPreimage_map (c : Coin) (tx : Tx) (us : List (Option TxOut)) (e : 
   simp only [h1, h2, h3, h4]
 /-! ## the frame direction: a change outside the commitment leaves the verdict as it was -/
 
-/-- the script code a closure digests: the witness closure and Bitcoin Cash take the script as it stands, the others
-remove the signature pushes first -/
-def closureCode (c : Coin) (q : Query) : Except Sighash.Err Bytes :=
-  if q.witness || !closureDeletesSigs c then .ok q.script else deleteSignatures q.script q.sigs
-
-/-- from the bytes a signature commits to, to the number handed to `generator.verify` -/
-def digestOf (c : Coin) (witness : Bool) : Except Sighash.Err (Option Bytes) → Except Sighash.Err Nat
-  | .error e => .error e
-  | .ok none => .ok Gen.Sighash.singleBugValue
-  | .ok (some p) => .ok (beNat (sha (if witness || requiresForkId c then segwitSingleSha c else legacySingleSha c) p))
-
 /-- C06.oracle_reads_preimage_only: what a closure of `check_solution` answers depends on the transaction and the
 unspents **only through the committed bytes** (`preimageOf`: the legacy message, or the BIP143 message with the fork id
 folded in) -/
@@ -519,53 +528,8 @@ theorem C06_oracle_reads_preimage_only (c : Coin) (s : State) (idx : Nat) (q : Q
     oracle c s idx q =
       match closureCode c q with
       | .error e => .error e
-      | .ok code => digestOf c q.witness (preimageOf c s q.witness code idx q.ht) := by
-  unfold oracle closureCode preimageOf
-  cases hw : q.witness with
-  | true =>
-    simp only [if_true, Bool.true_or, witnessSighashF, segwitSignatureHash, digestOf]
-    split
-    · rfl
-    · cases segwitPreimage c s.tx s.us q.script idx (q.ht ||| forkId c <<< 8) <;> rfl
-  | false =>
-    simp only [Bool.false_eq_true, if_false, Bool.false_or, sighashF]
-    cases hd : closureDeletesSigs c with
-    | false =>
-      simp only [Bool.not_false, if_true, Bool.false_eq_true, if_false]
-      unfold signatureHash
-      cases hr : requiresForkId c with
-      | true =>
-        simp only [if_true, Bool.true_and, decide_eq_true_eq]
-        unfold segwitSignatureHash
-        by_cases hf : q.ht &&& Gen.Sighash.sighashForkid ≠ Gen.Sighash.sighashForkid
-        · simp [hf, digestOf]
-        · simp only [hf, if_false, decide_false, Bool.and_false, Bool.false_eq_true]
-          cases segwitPreimage c s.tx s.us q.script idx (q.ht ||| forkId c <<< 8) <;> simp [digestOf, hr]
-      | false =>
-        simp only [Bool.false_eq_true, if_false, legacySignatureHash]
-        cases Sighash.legacyPreimage c s.tx q.script idx q.ht with
-        | error e => rfl
-        | ok o => cases o <;> simp [digestOf, hr]
-    | true =>
-      simp only [Bool.not_true, Bool.false_eq_true, if_false, if_true]
-      cases deleteSignatures q.script q.sigs with
-      | error e => rfl
-      | ok code =>
-        simp only
-        unfold signatureHash
-        cases hr : requiresForkId c with
-        | true =>
-          simp only [if_true, Bool.true_and, decide_eq_true_eq]
-          unfold segwitSignatureHash
-          by_cases hf : q.ht &&& Gen.Sighash.sighashForkid ≠ Gen.Sighash.sighashForkid
-          · simp [hf, digestOf]
-          · simp only [hf, if_false, decide_false, Bool.and_false, Bool.false_eq_true]
-            cases segwitPreimage c s.tx s.us code idx (q.ht ||| forkId c <<< 8) <;> simp [digestOf, hr]
-        | false =>
-          simp only [Bool.false_eq_true, if_false, legacySignatureHash]
-          cases Sighash.legacyPreimage c s.tx code idx q.ht with
-          | error e => rfl
-          | ok o => cases o <;> simp [digestOf, hr]
+      | .ok code => digestOf c q.witness (preimageOf c s q.witness code idx q.ht) :=
+  oracle_reads_preimage_only c s idx q
 
 /-- C06.uncommitted_change_same_verdict: if two states give input `idx` the same context, have its spent output known
 in both, and the bytes committed to by every signature the interpreter may check (`Q`) are the same — which, by
@@ -739,6 +703,455 @@ theorem C06_tamper_fails_partial (H : Bytes → Bytes) (verify : Bytes → Bool)
     verify (H p') = false :=
   hUF (H p') (fun h => hne (hCR h.symm))
 
+/-! ## tampering, through the interpreter of the code
+
+`stdVM c` (`Model/ValidateVM.lean`) is `SolutionChecker(tx).check_solution(tx_context)` of class `c`: the model of pycoin's
+script VM (C03) run with the class's `DEFAULT_FLAGS`, its signature check being `checksig` over the closures of
+`check_solution` — key parse, lax DER parse, the digest of the bytes the closure commits to, ECDSA verification.  The theorems
+below go through `is_solution_ok` of that interpreter.  Everything structural is proved: which bytes are digested
+(`C06_oracle_reads_preimage_only`), that the digest is what ECDSA-verify gets for the key in the script (`chkOf_eq`), that a
+refused check makes `CHECKSIG` push false — NULLFAIL is not among the default flags — and the script fail, that the multisig
+loop fails when one signature verifies for no key, that the P2SH / witness wrappers compare hashes before anything else
+(`Proofs/TamperEval.lean`, `Proofs/SignReject.lean`, `C03M_verify_eq`).  Assumed, and named: `CollisionFree` of the digest
+function on the two committed byte strings, `NoForgery` of the signature for the two digests.  Not a hypothesis but a fact
+the statements need: the tampered transaction is not of the coinbase shape (then `tx_context_for_idx` hands the interpreter an
+empty puzzle script — known finding `coinbase-marker-input-valid`), and the closure answers in the tampered state (fields in
+wire range; otherwise `is_solution_ok` raises, which is not a `True` either). -/
+
+open Pycoin.Sign in
+/-- C06.valid_imp_verifies (P2PKH): `is_solution_ok` returns `True` for `<sig> <key>` against `DUP HASH160 <h> EQUALVERIFY
+CHECKSIG` only if the key hashes to `h` and the signature check — ECDSA over the digest of the bytes the closure of the
+*current* state commits to (`chkOf_eq`) — accepts the signature for that key -/
+theorem C06_valid_imp_verifies_p2pkh (c : Coin) (st : State) (idx : Nat) (sig key h : Bytes)
+    (hi : InputIs st idx (pushesOf [sig, key]) [] (p2pkhScript h)) (hlen : h.length = 20)
+    (hs2 : 2 ≤ sig.length) (hs : sig.length ≤ 75) (hk2 : 2 ≤ key.length) (hk : key.length ≤ 75)
+    (hv : isSolutionOk (stdVM c) c st idx = .ok true) :
+    Hash.hash160 key = h ∧ chkOf (oracle c st idx) sig key (baseCode (p2pkhScript h) [sig]) false = true := by
+  refine ⟨?_, ?_⟩
+  · by_contra hne
+    exact p2pkh_not_valid c st idx sig key h hi hlen hs2 hs hk2 hk (Or.inl hne) hv
+  · by_contra hne
+    exact p2pkh_not_valid c st idx sig key h hi hlen hs2 hs hk2 hk (Or.inr (by simpa using hne)) hv
+
+open Pycoin.Sign in
+/-- C06.tamper_fails (P2PKH; every class; every hash type — the byte `ht` the signature ends in).  Input `idx` carries
+`<sig> <key>` and spends `DUP HASH160 <h> EQUALVERIFY CHECKSIG` in both states; it validated in `s`; the bytes its signature
+commits to differ in `s'` (`Tampered`: by `C06_tampered_of_fields_legacy` / `_bip143`, a committed field differs).  Then it does
+not validate in `s'` — under exactly the two cryptographic hypotheses `hCR` (the digest function does not collide on the
+two committed byte strings) and `hUF` (the signature, valid for the digest of `p` under the key, is not valid for the digest
+of `p'`). -/
+theorem C06_tamper_fails_p2pkh (c : Coin) (s s' : State) (idx : Nat) (sig key h : Bytes) (ht : UInt8) (p p' : Bytes)
+    (hi : InputIs s idx (pushesOf [sig, key]) [] (p2pkhScript h))
+    (hi' : InputIs s' idx (pushesOf [sig, key]) [] (p2pkhScript h)) (hlen : h.length = 20)
+    (hs2 : 2 ≤ sig.length) (hs : sig.length ≤ 75) (hk2 : 2 ≤ key.length) (hk : key.length ≤ 75)
+    (hl : sig.getLast? = some ht)
+    (hvalid : isSolutionOk (stdVM c) c s idx = .ok true)
+    (hT : Tampered c s s' false (baseCode (p2pkhScript h) [sig]) (baseCode (p2pkhScript h) [sig]) idx ht.toNat p p')
+    (hCR : CollisionFree (msgHash c false) p p')
+    (hUF : NoForgery [key] sig (msgDigest c false p) (msgDigest c false p')) :
+    isSolutionOk (stdVM c) c s' idx ≠ .ok true := by
+  have hgood := (C06_valid_imp_verifies_p2pkh c s idx sig key h hi hlen hs2 hs hk2 hk hvalid).2
+  have hbad := tamper_glue c s s' idx false _ _ sig [key] ht hl p p' hT hCR hUF ⟨key, by simp, hgood⟩ key (by simp)
+  exact p2pkh_not_valid c s' idx sig key h hi' hlen hs2 hs hk2 hk (Or.inr hbad)
+
+open Pycoin.Sign in
+/-- C06.valid_imp_verifies (P2PK) -/
+theorem C06_valid_imp_verifies_p2pk (c : Coin) (st : State) (idx : Nat) (sig key : Bytes)
+    (hi : InputIs st idx (pushesOf [sig]) [] (p2pkScript key))
+    (hs2 : 2 ≤ sig.length) (hs : sig.length ≤ 75) (hk33 : 33 ≤ key.length) (hk : key.length ≤ 75)
+    (hv : isSolutionOk (stdVM c) c st idx = .ok true) :
+    chkOf (oracle c st idx) sig key (baseCode (p2pkScript key) [sig]) false = true := by
+  by_contra hne
+  exact p2pk_not_valid c st idx sig key hi hs2 hs hk33 hk (by simpa using hne) hv
+
+open Pycoin.Sign in
+/-- C06.tamper_fails (P2PK): `<sig>` against `<key> CHECKSIG` -/
+theorem C06_tamper_fails_p2pk (c : Coin) (s s' : State) (idx : Nat) (sig key : Bytes) (ht : UInt8) (p p' : Bytes)
+    (hi : InputIs s idx (pushesOf [sig]) [] (p2pkScript key))
+    (hi' : InputIs s' idx (pushesOf [sig]) [] (p2pkScript key))
+    (hs2 : 2 ≤ sig.length) (hs : sig.length ≤ 75) (hk33 : 33 ≤ key.length) (hk : key.length ≤ 75)
+    (hl : sig.getLast? = some ht)
+    (hvalid : isSolutionOk (stdVM c) c s idx = .ok true)
+    (hT : Tampered c s s' false (baseCode (p2pkScript key) [sig]) (baseCode (p2pkScript key) [sig]) idx ht.toNat p p')
+    (hCR : CollisionFree (msgHash c false) p p')
+    (hUF : NoForgery [key] sig (msgDigest c false p) (msgDigest c false p')) :
+    isSolutionOk (stdVM c) c s' idx ≠ .ok true := by
+  have hgood := C06_valid_imp_verifies_p2pk c s idx sig key hi hs2 hs hk33 hk hvalid
+  have hbad := tamper_glue c s s' idx false _ _ sig [key] ht hl p p' hT hCR hUF ⟨key, by simp, hgood⟩ key (by simp)
+  exact p2pk_not_valid c s' idx sig key hi' hs2 hs hk33 hk hbad
+
+open Pycoin.Sign in
+/-- C06.valid_imp_verifies (P2WPKH): the script code is the implied `DUP HASH160 <h> EQUALVERIFY CHECKSIG`, the closure the
+witness one (BIP143) -/
+theorem C06_valid_imp_verifies_p2wpkh (c : Coin) (st : State) (idx : Nat) (sig key h : Bytes)
+    (hi : InputIs st idx [] [sig, key] (witnessV0Script h)) (hlen : h.length = 20)
+    (hs : sig.length ≤ 520) (hk : key.length ≤ 520)
+    (hv : isSolutionOk (stdVM c) c st idx = .ok true) :
+    Hash.hash160 key = h ∧ chkOf (oracle c st idx) sig key (p2pkhScript h) true = true := by
+  refine ⟨?_, ?_⟩
+  · by_contra hne
+    exact p2wpkh_not_valid c st idx sig key h hi hlen hs hk (Or.inl hne) hv
+  · by_contra hne
+    exact p2wpkh_not_valid c st idx sig key h hi hlen hs hk (Or.inr (by simpa using hne)) hv
+
+open Pycoin.Sign in
+/-- C06.tamper_fails (P2WPKH): empty scriptSig, witness `[sig, key]`, against `OP_0 <h>`; the committed bytes are the BIP143
+message (with the spent amount) -/
+theorem C06_tamper_fails_p2wpkh (c : Coin) (s s' : State) (idx : Nat) (sig key h : Bytes) (ht : UInt8) (p p' : Bytes)
+    (hi : InputIs s idx [] [sig, key] (witnessV0Script h))
+    (hi' : InputIs s' idx [] [sig, key] (witnessV0Script h)) (hlen : h.length = 20)
+    (hs : sig.length ≤ 520) (hk : key.length ≤ 520)
+    (hl : sig.getLast? = some ht)
+    (hvalid : isSolutionOk (stdVM c) c s idx = .ok true)
+    (hT : Tampered c s s' true (p2pkhScript h) (p2pkhScript h) idx ht.toNat p p')
+    (hCR : CollisionFree (msgHash c true) p p')
+    (hUF : NoForgery [key] sig (msgDigest c true p) (msgDigest c true p')) :
+    isSolutionOk (stdVM c) c s' idx ≠ .ok true := by
+  have hgood := (C06_valid_imp_verifies_p2wpkh c s idx sig key h hi hlen hs hk hvalid).2
+  have hbad := tamper_glue c s s' idx true _ _ sig [key] ht hl p p' hT hCR hUF ⟨key, by simp, hgood⟩ key (by simp)
+  exact p2wpkh_not_valid c s' idx sig key h hi' hlen hs hk (Or.inr hbad)
+
+open Pycoin.Sign in
+/-- C06.valid_imp_verifies (P2SH-P2WPKH) -/
+theorem C06_valid_imp_verifies_p2sh_p2wpkh (c : Coin) (st : State) (idx : Nat) (sig key h hr : Bytes)
+    (hi : InputIs st idx (pushesOf [witnessV0Script h]) [sig, key] (p2shScript hr)) (hlen : h.length = 20)
+    (hrlen : hr.length = 20) (hs : sig.length ≤ 520) (hk : key.length ≤ 520)
+    (hv : isSolutionOk (stdVM c) c st idx = .ok true) :
+    Hash.hash160 (witnessV0Script h) = hr ∧ Hash.hash160 key = h ∧
+      chkOf (oracle c st idx) sig key (p2pkhScript h) true = true := by
+  refine ⟨?_, ?_, ?_⟩
+  · by_contra hne
+    exact p2sh_p2wpkh_not_valid c st idx sig key h hr hi hlen hrlen hs hk (Or.inl hne) hv
+  · by_contra hne
+    exact p2sh_p2wpkh_not_valid c st idx sig key h hr hi hlen hrlen hs hk (Or.inr (Or.inl hne)) hv
+  · by_contra hne
+    exact p2sh_p2wpkh_not_valid c st idx sig key h hr hi hlen hrlen hs hk (Or.inr (Or.inr (by simpa using hne))) hv
+
+open Pycoin.Sign in
+/-- C06.tamper_fails (P2SH-P2WPKH): scriptSig = the push of `OP_0 <h>`, witness `[sig, key]`, against `HASH160 <hr> EQUAL` -/
+theorem C06_tamper_fails_p2sh_p2wpkh (c : Coin) (s s' : State) (idx : Nat) (sig key h hr : Bytes) (ht : UInt8) (p p' : Bytes)
+    (hi : InputIs s idx (pushesOf [witnessV0Script h]) [sig, key] (p2shScript hr))
+    (hi' : InputIs s' idx (pushesOf [witnessV0Script h]) [sig, key] (p2shScript hr)) (hlen : h.length = 20)
+    (hrlen : hr.length = 20) (hs : sig.length ≤ 520) (hk : key.length ≤ 520)
+    (hl : sig.getLast? = some ht)
+    (hvalid : isSolutionOk (stdVM c) c s idx = .ok true)
+    (hT : Tampered c s s' true (p2pkhScript h) (p2pkhScript h) idx ht.toNat p p')
+    (hCR : CollisionFree (msgHash c true) p p')
+    (hUF : NoForgery [key] sig (msgDigest c true p) (msgDigest c true p')) :
+    isSolutionOk (stdVM c) c s' idx ≠ .ok true := by
+  have hgood := (C06_valid_imp_verifies_p2sh_p2wpkh c s idx sig key h hr hi hlen hrlen hs hk hvalid).2.2
+  have hbad := tamper_glue c s s' idx true _ _ sig [key] ht hl p p' hT hCR hUF ⟨key, by simp, hgood⟩ key (by simp)
+  exact p2sh_p2wpkh_not_valid c s' idx sig key h hr hi' hlen hrlen hs hk (Or.inr (Or.inr hbad))
+
+open Pycoin.Sign in
+/-- C06.valid_imp_verifies (m-of-n multisig, bare / P2SH / P2WSH / P2SH-P2WSH): validation succeeds only if **every** signature
+of the unlocking data is accepted by the signature check for one of the listed keys -/
+theorem C06_valid_imp_verifies_multisig (c : Coin) (st : State) (idx : Nat) (w : Wrap) (m : Nat) (keys sigsTop : List Bytes)
+    (hi : InputIs st idx (w.scriptSig (multisigScriptN m keys) ([] :: sigsTop.reverse))
+      (w.wit (multisigScriptN m keys) ([] :: sigsTop.reverse)) (w.spk (multisigScriptN m keys)))
+    (ok : w.Ok (multisigScriptN m keys) F0)
+    (hm : sigsTop.length = m) (hm1 : 1 ≤ m) (hmn : m ≤ keys.length) (hn : keys.length ≤ 20)
+    (hkeys : ∀ k ∈ keys, 2 ≤ k.length ∧ k.length ≤ 75) (hsigs : ∀ sg ∈ sigsTop, 2 ≤ sg.length ∧ sg.length ≤ 75)
+    (hv : isSolutionOk (stdVM c) c st idx = .ok true) :
+    ∀ sg ∈ sigsTop, ∃ k ∈ keys, chkOf (oracle c st idx) sg k (multisigCode w m keys sigsTop) w.witness = true := by
+  intro sg hsg
+  by_contra hne
+  apply multisig_not_valid c st idx w m keys sigsTop hi ok hm hm1 hmn hn hkeys hsigs _ hv
+  refine ⟨sg, hsg, fun k hk => ?_⟩
+  cases hc : chkOf (oracle c st idx) sg k (multisigCode w m keys sigsTop) w.witness with
+  | false => rfl
+  | true => exact absurd ⟨k, hk, hc⟩ hne
+
+open Pycoin.Sign in
+/-- C06.tamper_fails (m-of-n multisig: bare, P2SH, P2WSH, P2SH-P2WSH; every `1 ≤ m ≤ n ≤ 20`).  The unlocking data carries the
+signatures `sigsTop` (each with its own hash-type byte); the input validated in `s`; for **one** of the signatures, `sg` with
+hash-type byte `ht`, the committed bytes differ in `s'`.  Then the input does not validate in `s'`: that signature verifies
+for none of the keys (`hUF`, over the whole key list), and the matching loop of `CHECKMULTISIG` gives up. -/
+theorem C06_tamper_fails_multisig (c : Coin) (s s' : State) (idx : Nat) (w : Wrap) (m : Nat) (keys sigsTop : List Bytes)
+    (sg : Bytes) (ht : UInt8) (p p' : Bytes)
+    (hi : InputIs s idx (w.scriptSig (multisigScriptN m keys) ([] :: sigsTop.reverse))
+      (w.wit (multisigScriptN m keys) ([] :: sigsTop.reverse)) (w.spk (multisigScriptN m keys)))
+    (hi' : InputIs s' idx (w.scriptSig (multisigScriptN m keys) ([] :: sigsTop.reverse))
+      (w.wit (multisigScriptN m keys) ([] :: sigsTop.reverse)) (w.spk (multisigScriptN m keys)))
+    (ok : w.Ok (multisigScriptN m keys) F0)
+    (hm : sigsTop.length = m) (hm1 : 1 ≤ m) (hmn : m ≤ keys.length) (hn : keys.length ≤ 20)
+    (hkeys : ∀ k ∈ keys, 2 ≤ k.length ∧ k.length ≤ 75) (hsigs : ∀ x ∈ sigsTop, 2 ≤ x.length ∧ x.length ≤ 75)
+    (hsg : sg ∈ sigsTop) (hl : sg.getLast? = some ht)
+    (hvalid : isSolutionOk (stdVM c) c s idx = .ok true)
+    (hT : Tampered c s s' w.witness (multisigCode w m keys sigsTop) (multisigCode w m keys sigsTop) idx ht.toNat p p')
+    (hCR : CollisionFree (msgHash c w.witness) p p')
+    (hUF : NoForgery keys sg (msgDigest c w.witness p) (msgDigest c w.witness p')) :
+    isSolutionOk (stdVM c) c s' idx ≠ .ok true := by
+  have hgood := C06_valid_imp_verifies_multisig c s idx w m keys sigsTop hi ok hm hm1 hmn hn hkeys hsigs hvalid sg hsg
+  have hbad := tamper_glue c s s' idx w.witness _ _ sg keys ht hl p p' hT hCR hUF hgood
+  exact multisig_not_valid c s' idx w m keys sigsTop hi' ok hm hm1 hmn hn hkeys hsigs ⟨sg, hsg, hbad⟩
+
+/-! ### from a committed field that differs to committed bytes that differ -/
+
+/-- the legacy message of input `idx` for script code `code` and hash-type word `ht`, outside the SIGHASH_SINGLE-without-output
+case: the wire form of the blanked transaction, then the hash-type word (`legacyPreimage_tmp`) -/
+def legacyMsg (tx : Tx) (code : Bytes) (idx ht : Nat) : Bytes :=
+  Spec.Wire.legacy (tmpOf tx (strippedBody code ++ instrTail code) idx ht) ++ le 4 ht
+
+/-- C06.tampered_of_fields (legacy digest: Bitcoin, Litecoin, Groestlcoin, non-witness inputs).  If the fields the hash type
+`ht` commits to (`legacyFields`: `C06_committed_fields_legacy`; the script code with its OP_CODESEPARATORs removed is one of
+them, so `code'` may be another script: "the script being satisfied") differ between the two states — both in scope, neither in
+the SIGHASH_SINGLE-without-output case — then the committed bytes exist in both, are the two legacy messages, and differ: the
+hypothesis `Tampered` of `C06_tamper_fails_*`, with **no** further assumption. -/
+theorem C06_tampered_of_fields_legacy (c : Coin) (hc : requiresForkId c = false) (s s' : State) (idx : Nat) (code code' : Bytes)
+    (ht : Nat) (hx : InScope s.tx idx code) (hy : InScope s'.tx idx code') (hht : ht < 2 ^ 32)
+    (hb : isBug s.tx idx ht = false) (hb' : isBug s'.tx idx ht = false)
+    (hdiff : legacyFields s.tx (strippedBody code ++ instrTail code) idx ht ≠
+      legacyFields s'.tx (strippedBody code' ++ instrTail code') idx ht) :
+    Tampered c s s' false code code' idx ht (legacyMsg s.tx code idx ht) (legacyMsg s'.tx code' idx ht) := by
+  obtain ⟨hdel, hsl, _⟩ := strip_serializeScriptCode_all code
+  obtain ⟨hdel', hsl', _⟩ := strip_serializeScriptCode_all code'
+  have hs : LenOk (strippedBody code ++ instrTail code) := by have := hx.len; unfold LenOk at this ⊢; omega
+  have hs' : LenOk (strippedBody code' ++ instrTail code') := by have := hy.len; unfold LenOk at this ⊢; omega
+  have e1 := legacyPreimage_tmp c s.tx hx.wf idx hx.idx code _ hdel hs ht hht
+  have e2 := legacyPreimage_tmp c s'.tx hy.wf idx hy.idx code' _ hdel' hs' ht hht
+  rw [hb] at e1
+  rw [hb'] at e2
+  simp only [Bool.false_eq_true, if_false] at e1 e2
+  have hp : ∀ (st : State) (cd : Bytes), preimageOf c st false cd idx ht = Sighash.legacyPreimage c st.tx cd idx ht := by
+    intro st cd; simp [preimageOf, hc]
+  refine ⟨by rw [hp, e1]; rfl, by rw [hp, e2]; rfl, ?_⟩
+  intro heq
+  apply hdiff
+  apply (C06_committed_fields_legacy c s.tx s'.tx idx code code' hx hy ht hht hb hb').mp
+  rw [e1, e2]
+  unfold legacyMsg at heq
+  rw [heq]
+
+/-- C06.tampered_of_fields (BIP143 message: witness inputs of every class, every input of the fork-id classes; `ht'` = the
+hash-type word with the fork id folded in).  If the listed fields (`fields143`, incl. the spent amount) differ, the committed
+bytes differ.  Partial: besides collision freeness of the part hash on three more named pairs (`hP`, `hS`, `hO`: the outpoint
+lists, the sequence lists, the committed output lists of the two states) it needs `hZ`: the digest of an output list is not
+32 zero bytes — used only when, under SIGHASH_SINGLE, one state has the output at the input's position and the other has not. -/
+theorem C06_tampered_of_fields_bip143_partial (c : Coin) (s s' : State) (idx : Nat) (w : Bool) (code : Bytes) (ht : Nat)
+    (o o' : TxOut) (hkind : w = true ∨ requiresForkId c = true)
+    (hfork : ((if w then segwitRequiresForkId c else true) &&
+      decide (ht &&& Gen.Sighash.sighashForkid ≠ Gen.Sighash.sighashForkid)) = false)
+    (hwf : s.tx.WF) (hwf' : s'.tx.WF) (hidx : idx < s.tx.ins.length) (hidx' : idx < s'.tx.ins.length)
+    (hu : s.us[idx]? = some (some o)) (hu' : s'.us[idx]? = some (some o')) (hamt : U64 o.value) (hamt' : U64 o'.value)
+    (hcode : LenOk code) (hht : ht ||| (forkId c <<< 8) < 2 ^ 32)
+    (hP : CollisionFree (sha (segwitPartsSingleSha c)) (s.tx.ins.map outpoint).flatten (s'.tx.ins.map outpoint).flatten)
+    (hS : CollisionFree (sha (segwitPartsSingleSha c)) (s.tx.ins.map fun t => le 4 t.sequence.toNat).flatten
+      (s'.tx.ins.map fun t => le 4 t.sequence.toNat).flatten)
+    (hO : ∀ l l', outsCommitted s.tx idx (ht ||| (forkId c <<< 8)) = some l →
+      outsCommitted s'.tx idx (ht ||| (forkId c <<< 8)) = some l' →
+      CollisionFree (sha (segwitPartsSingleSha c)) (l.map txout).flatten (l'.map txout).flatten)
+    (hZ : ∀ l, (outsCommitted s.tx idx (ht ||| (forkId c <<< 8)) = some l ∧
+          outsCommitted s'.tx idx (ht ||| (forkId c <<< 8)) = none) ∨
+        (outsCommitted s'.tx idx (ht ||| (forkId c <<< 8)) = some l ∧
+          outsCommitted s.tx idx (ht ||| (forkId c <<< 8)) = none) →
+        sha (segwitPartsSingleSha c) (l.map txout).flatten ≠ Spec.Sighash.zero32)
+    (hdiff : fields143 s.tx idx code o.value.toNat (ht ||| (forkId c <<< 8)) ≠
+      fields143 s'.tx idx code o'.value.toNat (ht ||| (forkId c <<< 8))) :
+    Tampered c s s' w code code idx ht
+      (bip143Preimage (sha (segwitPartsSingleSha c)) s.tx idx code o.value.toNat (ht ||| (forkId c <<< 8)))
+      (bip143Preimage (sha (segwitPartsSingleSha c)) s'.tx idx code o'.value.toNat (ht ||| (forkId c <<< 8))) := by
+  have e1 := segwitPreimage_eq c s.tx hwf s.us idx hidx o hu hamt code hcode _ hht
+  have e2 := segwitPreimage_eq c s'.tx hwf' s'.us idx hidx' o' hu' hamt' code hcode _ hht
+  have hk : (w || requiresForkId c) = true := by rcases hkind with h | h <;> simp [h]
+  have hp : ∀ (st : State) (b : Bytes), segwitPreimage c st.tx st.us code idx (ht ||| (forkId c <<< 8)) = .ok b →
+      preimageOf c st w code idx ht = .ok (some b) := by
+    intro st b hb
+    unfold preimageOf
+    rw [if_pos hk, if_neg (by rw [hfork]; simp), hb]
+  refine ⟨hp s _ e1, hp s' _ e2, ?_⟩
+  intro heq
+  apply hdiff
+  have ha : o.value.toNat < 2 ^ 64 := by have := hamt.1; have := hamt.2; omega
+  have ha' : o'.value.toNat < 2 ^ 64 := by have := hamt'.1; have := hamt'.2; omega
+  exact (C06_committed_fields_bip143 (segwitPartsSingleSha c) s.tx s'.tx hwf hwf' idx idx hidx hidx' code code hcode hcode
+    _ _ ha ha' _ _ hht hht (fun a b ha hb hab => by subst ha; subst hb; exact hP hab)
+    (fun a b ha hb hab => by subst ha; subst hb; exact hS hab) (fun l l' hl hl' hab => hO l l' hl hl' hab) hZ).mp heq
+
+open Pycoin.Sign in
+/-- **C06.tamper_fails, the property's sentence for a P2PKH input of a legacy-digest class, end to end.**  After signing (`s`:
+the input validates), any change of the transaction that leaves the input's unlocking data and spent script alone and changes
+a field its hash type `ht` (the last byte of the signature) commits to — `legacyFields`: for SIGHASH_ALL the version, the lock
+time, every outpoint and sequence number, every output amount and script — makes `is_solution_ok` not return `True`, under
+`CollisionFree` of the class's digest function on {legacy message of `s`, legacy message of `s'`} and `NoForgery` of the
+signature for their two digests.  (Hypotheses that are facts about the two states, not assumptions: both in wire range with
+the input present, neither in the SIGHASH_SINGLE-without-output case, `s'` not of the coinbase shape — inside `InputIs`.) -/
+theorem C06_tamper_fails_p2pkh_fields (c : Coin) (hc : requiresForkId c = false) (s s' : State) (idx : Nat) (sig key h : Bytes)
+    (ht : UInt8)
+    (hi : InputIs s idx (pushesOf [sig, key]) [] (p2pkhScript h))
+    (hi' : InputIs s' idx (pushesOf [sig, key]) [] (p2pkhScript h)) (hlen : h.length = 20)
+    (hs2 : 2 ≤ sig.length) (hs : sig.length ≤ 75) (hk2 : 2 ≤ key.length) (hk : key.length ≤ 75)
+    (hl : sig.getLast? = some ht)
+    (hvalid : isSolutionOk (stdVM c) c s idx = .ok true)
+    (hx : InScope s.tx idx (baseCode (p2pkhScript h) [sig])) (hy : InScope s'.tx idx (baseCode (p2pkhScript h) [sig]))
+    (hb : isBug s.tx idx ht.toNat = false) (hb' : isBug s'.tx idx ht.toNat = false)
+    (hdiff : legacyFields s.tx (strippedBody (baseCode (p2pkhScript h) [sig]) ++ instrTail (baseCode (p2pkhScript h) [sig])) idx ht.toNat ≠
+      legacyFields s'.tx (strippedBody (baseCode (p2pkhScript h) [sig]) ++ instrTail (baseCode (p2pkhScript h) [sig])) idx ht.toNat)
+    (hCR : CollisionFree (msgHash c false) (legacyMsg s.tx (baseCode (p2pkhScript h) [sig]) idx ht.toNat)
+      (legacyMsg s'.tx (baseCode (p2pkhScript h) [sig]) idx ht.toNat))
+    (hUF : NoForgery [key] sig (msgDigest c false (legacyMsg s.tx (baseCode (p2pkhScript h) [sig]) idx ht.toNat))
+      (msgDigest c false (legacyMsg s'.tx (baseCode (p2pkhScript h) [sig]) idx ht.toNat))) :
+    isSolutionOk (stdVM c) c s' idx ≠ .ok true :=
+  C06_tamper_fails_p2pkh c s s' idx sig key h ht _ _ hi hi' hlen hs2 hs hk2 hk hl hvalid
+    (C06_tampered_of_fields_legacy c hc s s' idx _ _ ht.toNat hx hy
+      (by have := ht.toNat_lt; omega) hb hb' hdiff) hCR hUF
+
+/-! ### "the script being satisfied": the data push of the spent script
+
+A change inside the hash push of the recorded spent script — the key hash of P2PKH / P2WPKH, the script hash of P2SH / P2WSH —
+makes the input fail whatever else the transaction says, with **no** cryptographic hypothesis: the unlocking data no longer
+hashes to the committed value (`hne` is a fact about two byte strings).  For the kinds whose key sits in the script itself
+(P2PK, bare multisig) the spent script is the script code and hence committed: `C06_tamper_fails_*` with `Tampered` through
+the script code. -/
+
+open Pycoin.Sign in
+/-- C06.spent_script_hash (P2PKH): another key hash in the spent script ⇒ `EQUALVERIFY` fails -/
+theorem C06_spent_script_hash_fails_p2pkh (c : Coin) (st : State) (idx : Nat) (sig key h' : Bytes)
+    (hi : InputIs st idx (pushesOf [sig, key]) [] (p2pkhScript h')) (hlen : h'.length = 20)
+    (hs2 : 2 ≤ sig.length) (hs : sig.length ≤ 75) (hk2 : 2 ≤ key.length) (hk : key.length ≤ 75)
+    (hne : Hash.hash160 key ≠ h') :
+    isSolutionOk (stdVM c) c st idx ≠ .ok true :=
+  p2pkh_not_valid c st idx sig key h' hi hlen hs2 hs hk2 hk (Or.inl hne)
+
+open Pycoin.Sign in
+/-- C06.spent_script_hash (P2WPKH): another program ⇒ the implied P2PKH script fails at `EQUALVERIFY` -/
+theorem C06_spent_script_hash_fails_p2wpkh (c : Coin) (st : State) (idx : Nat) (sig key h' : Bytes)
+    (hi : InputIs st idx [] [sig, key] (witnessV0Script h')) (hlen : h'.length = 20)
+    (hs : sig.length ≤ 520) (hk : key.length ≤ 520) (hne : Hash.hash160 key ≠ h') :
+    isSolutionOk (stdVM c) c st idx ≠ .ok true :=
+  p2wpkh_not_valid c st idx sig key h' hi hlen hs hk (Or.inl hne)
+
+open Pycoin.Sign in
+/-- C06.spent_script_hash (P2SH, whatever is wrapped: multisig, P2WPKH, P2WSH, …): the scriptSig is push-only data that leaves
+`redeem` on top; another script hash in the spent script ⇒ `EQUAL` pushes false, before the redeem script or the witness is
+looked at -/
+theorem C06_spent_script_hash_fails_p2sh (c : Coin) (st : State) (idx : Nat) (scriptSig redeem hr' : Bytes)
+    (stack2 witness : List Bytes)
+    (hi : InputIs st idx scriptSig witness (p2shScript hr')) (hrlen : hr'.length = 20) (hs2 : stack2.length ≤ 30)
+    (hrun : ∀ chk tx, Spec.Consensus.evalScript chk [] scriptSig F0 tx .base = .ok (redeem :: stack2))
+    (hne : Hash.hash160 redeem ≠ hr') :
+    isSolutionOk (stdVM c) c st idx ≠ .ok true := by
+  apply not_valid_of_spec' c st idx _ _ _ hi
+  intro tx
+  exact verifyScript_p2sh_mismatch _ scriptSig redeem hr' stack2 witness F0 tx (hrun _ tx) hne hrlen hs2
+
+open Pycoin.Sign in
+/-- the hypothesis `hrun` of `C06_spent_script_hash_fails_p2sh` for the scriptSig of a P2SH m-of-n multisig (or any redeem
+script of 2..520 bytes after items of 0 or 2..75 bytes) -/
+theorem C06_p2sh_scriptSig_runs (items : List Bytes) (redeem : Bytes)
+    (hall : ∀ d ∈ items, d.length = 0 ∨ (2 ≤ d.length ∧ d.length ≤ 75)) (hcount : items.length ≤ 100)
+    (h2 : 2 ≤ redeem.length) (h : redeem.length ≤ 520) :
+    ∀ chk tx, Spec.Consensus.evalScript chk [] (pushesOf items ++ Spec.Consensus.pushData redeem) F0 tx .base = .ok (redeem :: items.reverse) :=
+  fun chk tx => evalScript_pushes_pushData chk items redeem F0 tx hall hcount h2 h
+
+open Pycoin.Sign in
+/-- C06.spent_script_hash (P2WSH): another program ⇒ WITNESS_PROGRAM_MISMATCH -/
+theorem C06_spent_script_hash_fails_p2wsh (c : Coin) (st : State) (idx : Nat) (items : List Bytes) (ws prog' : Bytes)
+    (hi : InputIs st idx [] (items ++ [ws]) (witnessV0Script prog')) (hplen : prog'.length = 32)
+    (hne : Hash.sha256 ws ≠ prog') :
+    isSolutionOk (stdVM c) c st idx ≠ .ok true := by
+  apply not_valid_of_spec' c st idx _ _ _ hi
+  intro tx
+  exact verifyScript_p2wsh_mismatch _ items ws prog' F0 tx rfl hne hplen
+
+open Pycoin.Sign in
+/-- C06.tamper_fails (the script being satisfied, legacy digest): the recorded spent script `DUP HASH160 <h> EQUALVERIFY
+CHECKSIG` is replaced by `… CHECKSIG NOP`, which the same `<sig> <key>` still *runs* to the same result — yet the input no
+longer validates, because the spent script is the script code and the signature commits to it (`hT`: by
+`C06_tampered_of_fields_legacy` with `code' ≠ code`, whatever else is unchanged); same two cryptographic hypotheses -/
+theorem C06_tamper_fails_p2pkh_script_nop (c : Coin) (s s' : State) (idx : Nat) (sig key h : Bytes) (ht : UInt8) (p p' : Bytes)
+    (hi : InputIs s idx (pushesOf [sig, key]) [] (p2pkhScript h))
+    (hi' : InputIs s' idx (pushesOf [sig, key]) [] (p2pkhNopScript h)) (hlen : h.length = 20)
+    (hs2 : 2 ≤ sig.length) (hs : sig.length ≤ 75) (hk2 : 2 ≤ key.length) (hk : key.length ≤ 75)
+    (hl : sig.getLast? = some ht)
+    (hvalid : isSolutionOk (stdVM c) c s idx = .ok true)
+    (hT : Tampered c s s' false (baseCode (p2pkhScript h) [sig]) (baseCode (p2pkhNopScript h) [sig]) idx ht.toNat p p')
+    (hCR : CollisionFree (msgHash c false) p p')
+    (hUF : NoForgery [key] sig (msgDigest c false p) (msgDigest c false p')) :
+    isSolutionOk (stdVM c) c s' idx ≠ .ok true := by
+  have hgood := (C06_valid_imp_verifies_p2pkh c s idx sig key h hi hlen hs2 hs hk2 hk hvalid).2
+  have hbad := tamper_glue c s s' idx false _ _ sig [key] ht hl p p' hT hCR hUF ⟨key, by simp, hgood⟩ key (by simp)
+  exact p2pkhNop_not_valid c s' idx sig key h hi' hlen hs2 hs hk2 hk (Or.inr hbad)
+
+/-! ## inputs and outputs inserted, removed, reordered: index shifts
+
+A signature travels with its input: after an insertion, removal or reordering the input sits at another position `idx'`,
+and what it commits to is read at the **new** position.  Under ANYONECANPAY (base type ALL or NONE) nothing but the input
+itself and the outputs-or-nothing is committed, so the position is free; under SINGLE the legacy digest commits to the
+position itself (the number of null outputs before the kept one) and to the output found there, the BIP143 message only to the
+output found at the new position. -/
+
+theorem single_not_none (ht : Nat) (h : fHashSingle ht = true) : fHashNone ht = false := by
+  cases hn : fHashNone ht with
+  | false => rfl
+  | true => rw [flags_excl ht hn] at h; cases h
+
+/-- C06.moved_input (legacy, ANYONECANPAY with base type ALL or NONE): the blanked transaction of input `t` at position `idx` of
+`tx` equals that of the same outpoint and sequence number at any position `idx'` of any `tx'` with the same version, lock time
+and (unless NONE) outputs — other inputs inserted, removed or reordered around it do not matter -/
+theorem C06_moved_input_acp_legacy (tx tx' : Tx) (st : Bytes) (idx idx' ht : Nat)
+    (hacp : fAnyoneCanPay ht = true) (hns : fHashSingle ht = false)
+    (hidx : idx < tx.ins.length) (hidx' : idx' < tx'.ins.length)
+    (hv : tx.version = tx'.version) (hlt : tx.lockTime = tx'.lockTime)
+    (hview : tx.ins[idx].prevHash = tx'.ins[idx'].prevHash ∧ tx.ins[idx].prevIndex = tx'.ins[idx'].prevIndex ∧
+      tx.ins[idx].sequence = tx'.ins[idx'].sequence)
+    (houts : fHashNone ht = true ∨ tx.outs = tx'.outs) :
+    tmpOf tx st idx ht = tmpOf tx' st idx' ht := by
+  have h1 := C06_acp_single_input tx st idx ht hacp hidx
+  have h2 := C06_acp_single_input tx' st idx' ht hacp hidx'
+  have ho : outsOf tx idx ht = outsOf tx' idx' ht := by
+    unfold outsOf
+    rcases houts with hn | he
+    · simp [hn]
+    · simp [hns, he]
+  unfold tmpOf at h1 h2 ⊢
+  simp only at h1 h2
+  rw [h1, h2, ho, hv, hlt, hview.1, hview.2.1, hview.2.2]
+
+/-- C06.moved_input (legacy, SINGLE): equal blanked transactions force the same position and the same output there — an
+input moved from `idx` to `idx' ≠ idx` commits to something else even if "its" output moved along -/
+theorem C06_single_commits_new_index_legacy (tx tx' : Tx) (st st' : Bytes) (idx idx' ht : Nat) (o o' : TxOut)
+    (hs : fHashSingle ht = true) (ho : tx.outs[idx]? = some o) (ho' : tx'.outs[idx']? = some o')
+    (h : tmpOf tx st idx ht = tmpOf tx' st' idx' ht) : idx = idx' ∧ o = o' := by
+  have hn := single_not_none ht hs
+  have h3 : outsOf tx idx ht = outsOf tx' idx' ht := by
+    have := congrArg Tx.outs h
+    simpa [tmpOf] using this
+  unfold outsOf at h3
+  simp only [hn, hs, ho, ho', Bool.false_eq_true, if_false, if_true] at h3
+  have hl := congrArg List.length h3
+  simp at hl
+  subst hl
+  have := List.append_cancel_left h3
+  simp at this
+  exact ⟨rfl, this⟩
+
+/-- C06.moved_input (BIP143 / fork-id, ANYONECANPAY): the ten items of input `t` at position `idx` equal those at any position
+`idx'` of a transaction with the same version and lock time whose committed outputs are the same: all of them (ALL), none
+(NONE), or — SINGLE — **the output at the new position** -/
+theorem C06_moved_input_acp_bip143 (H : Bytes → Bytes) (tx tx' : Tx) (idx idx' : Nat) (code : Bytes) (amt ht : Nat) (t : TxIn)
+    (hacp : fAnyoneCanPay ht = true)
+    (hin : tx.ins[idx]? = some t) (hin' : tx'.ins[idx']? = some t)
+    (hv : tx.version = tx'.version) (hlt : tx.lockTime = tx'.lockTime)
+    (houts : outsCommitted tx idx ht = outsCommitted tx' idx' ht) :
+    committed143 H tx idx code amt ht = committed143 H tx' idx' code amt ht := by
+  have hO : Spec.Sighash.hashOutputs H tx idx ht = Spec.Sighash.hashOutputs H tx' idx' ht := by
+    unfold outsCommitted at houts
+    unfold Spec.Sighash.hashOutputs
+    cases hs : fHashSingle ht <;> cases hn : fHashNone ht <;> simp only [hs, hn] at houts ⊢
+    · simp only [Bool.not_false, Bool.and_self, if_true, Option.some.injEq] at houts ⊢
+      rw [houts]
+    · simp
+    · simp only [Bool.not_true, Bool.false_and, Bool.false_eq_true, if_false, if_true] at houts ⊢
+      cases h1 : tx.outs[idx]? <;> cases h2 : tx'.outs[idx']? <;> simp [h1, h2] at houts ⊢
+      rw [houts]
+    · simp only [Bool.not_true, Bool.false_and, Bool.false_eq_true, if_false, if_true] at houts ⊢
+      cases h1 : tx.outs[idx]? <;> cases h2 : tx'.outs[idx']? <;> simp [h1, h2] at houts ⊢
+      rw [houts]
+  unfold committed143
+  simp only [hin, hin', Spec.Sighash.hashPrevouts, Spec.Sighash.hashSequence, hacp, hO, hv, hlt, Bool.not_true,
+    Bool.false_and, Bool.false_eq_true, if_false]
+
 /-! ## non-vacuity (evaluated) -/
 
 def exIn (n : UInt8) (q : Int) : TxIn := ⟨List.replicate 32 n, 3, [0x51], q, [[1, 2]]⟩
@@ -780,5 +1193,100 @@ example : isSolutionOk exVM .btc ⟨{ exTx with ins := exTx.ins.map exEdit }, [n
     exEdit_unlock (by intro t ht; cases ht; rfl)
 #guard (match runHistory exVM .btc ⟨exTx, [none, some ⟨1, []⟩]⟩ [.validate 1, .validate 0, .count, .validate 1] with
   | [.verdict (.ok true), .verdict (.ok false), .count (.ok 2), .verdict (.ok true)] => true | _ => false)
+
+/-! ### non-vacuity of the theorems about the instantiated interpreter: transactions signed by pycoin (key 1001…, hash type ALL),
+validated through `stdVM` by evaluation -/
+
+section
+open Pycoin.Sign
+
+/-- test helper: bytes from hex -/
+def hx (s : String) : Bytes := (Hex.decode s).getD []
+def exPrev : Bytes := List.replicate 32 0x21
+def exOut : TxOut := ⟨4000, hx "76a914c46c97834f6a1a27794af382f97a241fdcbde98b88ac"⟩
+def exK1 : Bytes := hx "039d1abaec9f5715a15c7628244170951e0f85e87f68ca5393d3f9fc3fa23a69c8"
+def exK2 : Bytes := hx "0370b55404702ffa86ecfa4e88e0f354004a0965a5eea5fbbd297436001ae920df"
+def exK3 : Bytes := hx "031fb966918db3af46c37234b6a4b043719886d6a05859ba32f72742d6141f7ae6"
+def exH1 : Bytes := hx "c46c97834f6a1a27794af382f97a241fdcbde98b"
+def exH2 : Bytes := hx "6958c12f439e717907b50366d68412a61c06618c"
+def exH3 : Bytes := hx "7dc7988037d760a4abc06017cbb68d9756d914ae"
+def exSigA : Bytes := hx "3044022064798060462df48a7f381f818ace4fbf75483e854cdc60db77ade0ea9d209108022048776db052f8b4e63beaec4a5f029d25f7dbd2e70fb7a9e66b4f1724a0b512fc01"
+def exSigB : Bytes := hx "3045022100c1e04bd9f6b8b108b5e651abc3480ffb9fca741ea4dc844c30f4d82f366556be02203b6026485de36fc63fea3549fe6101a18aa5b40ca997527b6f7fe554e95e104c01"
+def exSigW : Bytes := hx "304402205e000751dc1aa072d24211613eb67ed10a926ef3b5b5dd07fdfcdd8fd795702102205380e75aef842e42cdd729d568ff89efb3f582be79d83bcc38fe5a51f43147e501"
+def exSigSW : Bytes := hx "30450221009f503322124c0810802a1f69d94d2b7a56ca4cf619e3fe6cb6fd3b678157388402200444a246a7f4d804c4d1556681fd5c85bc13941cc03cfafe5cdba6501bcfc15001"
+def exSigM1 : Bytes := hx "304402206eb12f79bf03e8b67e274665673871178c2fecc85f9b1400af16e6dd2cee69dd0220224813f32197bad07ef9b1dafdccc88e6209cb9ea32a51b02c297852b954182801"
+def exSigM2 : Bytes := hx "304402200cd309d150ef3e6610e34173586c1b57952c11b350f96cdebde173b5fef76faa02202c61110d285d048fffe39e2e77e1def7adfb64ad193a5e443a6d13bc2e9ad1fc01"
+def exSigWM1 : Bytes := hx "3045022100e66894fd1ed9bc5ecb4c1f1523e9a1c5aa51f53594466400548ec098ebcb89b702206606a4f9db1cd33215b82e7a156d0f87b8be77953a1dabfb0b2189cc9264996001"
+def exSigWM2 : Bytes := hx "304402205408f88bb352e2f455d17555e4aa8684442798af814665dd8810dc3e5f4edf9402207c25f02c757ccfacfafc78effc01521c7b2858b5dde7ca3835fc72923de659be01"
+def exMs : Bytes := multisigScriptN 2 [exK1, exK2, exK3]
+/-- one input spending `spk` (10000 units) with the given unlocking data, one output -/
+def exState (scriptSig : Bytes) (wit : List Bytes) (spk : Bytes) : State :=
+  ⟨⟨1, [⟨exPrev, 0, scriptSig, 4294967295, wit⟩], [exOut], 0⟩, [some ⟨10000, spk⟩]⟩
+def exTamper (s : State) : State := { s with tx := { s.tx with lockTime := 1 } }
+def exOk (s : State) : Bool := isSolutionOk (stdVM .btc) .btc s 0 == .ok true
+def exFails (s : State) : Bool := isSolutionOk (stdVM .btc) .btc s 0 == .ok false
+
+def exP2pkh := exState (pushesOf [exSigA, exK1]) [] (p2pkhScript exH1)
+def exP2pk := exState (pushesOf [exSigB]) [] (p2pkScript exK2)
+def exP2wpkh := exState [] [exSigW, exK2] (witnessV0Script exH2)
+def exP2shP2wpkh := exState (pushesOf [witnessV0Script exH3]) [exSigSW, exK3] (p2shScript (Hash.hash160 (witnessV0Script exH3)))
+def exMsItems : List Bytes := [] :: [exSigM2, exSigM1].reverse
+def exBare := exState (Wrap.bare.scriptSig exMs exMsItems) (Wrap.bare.wit exMs exMsItems) (Wrap.bare.spk exMs)
+def exP2shMs := exState (Wrap.p2sh.scriptSig exMs exMsItems) (Wrap.p2sh.wit exMs exMsItems) (Wrap.p2sh.spk exMs)
+def exWItems : List Bytes := [] :: [exSigWM2, exSigWM1].reverse
+def exP2wshMs := exState (Wrap.p2wsh.scriptSig exMs exWItems) (Wrap.p2wsh.wit exMs exWItems) (Wrap.p2wsh.spk exMs)
+
+#guard exOk exP2pkh && exFails (exTamper exP2pkh)
+#guard exOk exP2pk && exFails (exTamper exP2pk)
+#guard exOk exP2wpkh && exFails (exTamper exP2wpkh)
+#guard exOk exP2shP2wpkh && exFails (exTamper exP2shP2wpkh)
+#guard exOk exBare && exFails (exTamper exBare)
+#guard exOk exP2shMs && exFails (exTamper exP2shMs)
+#guard exOk exP2wshMs && exFails (exTamper exP2wshMs)
+
+-- the shape hypotheses of `C06_tamper_fails_p2pkh` hold for the signed and the tampered state
+example : InputIs exP2pkh 0 (pushesOf [exSigA, exK1]) [] (p2pkhScript exH1) :=
+  ⟨by decide, ⟨_, rfl, rfl, rfl⟩, ⟨_, rfl, rfl⟩⟩
+example : InputIs (exTamper exP2pkh) 0 (pushesOf [exSigA, exK1]) [] (p2pkhScript exH1) :=
+  ⟨by decide, ⟨_, rfl, rfl, rfl⟩, ⟨_, rfl, rfl⟩⟩
+-- and the two cryptographic hypotheses hold on this instance (evaluated): the committed bytes differ, their digests differ,
+-- the signature verifies for the first digest and not for the second
+#guard (match preimageOf .btc exP2pkh false (baseCode (p2pkhScript exH1) [exSigA]) 0 1,
+    preimageOf .btc (exTamper exP2pkh) false (baseCode (p2pkhScript exH1) [exSigA]) 0 1 with
+  | .ok (some p), .ok (some p') =>
+    p != p' && msgHash .btc false p != msgHash .btc false p' && sigVerifies exK1 exSigA (msgDigest .btc false p) &&
+      !sigVerifies exK1 exSigA (msgDigest .btc false p')
+  | _, _ => false)
+#guard (match preimageOf .btc exP2wpkh true (p2pkhScript exH2) 0 1,
+    preimageOf .btc { exP2wpkh with us := [some ⟨10001, witnessV0Script exH2⟩] } true (p2pkhScript exH2) 0 1 with
+  | .ok (some p), .ok (some p') =>
+    p != p' && sigVerifies exK2 exSigW (msgDigest .btc true p) && !sigVerifies exK2 exSigW (msgDigest .btc true p')
+  | _, _ => false)
+-- the hypotheses of `C06_tamper_fails_p2pkh_fields` on this instance: the committed fields differ, and the committed bytes of the
+-- model are the legacy messages named in `hCR` / `hUF`
+#guard (let code := baseCode (p2pkhScript exH1) [exSigA]
+  legacyFields exP2pkh.tx (strippedBody code ++ instrTail code) 0 1 !=
+    legacyFields (exTamper exP2pkh).tx (strippedBody code ++ instrTail code) 0 1)
+#guard (let code := baseCode (p2pkhScript exH1) [exSigA]
+  match preimageOf .btc exP2pkh false code 0 1, preimageOf .btc (exTamper exP2pkh) false code 0 1 with
+  | .ok (some p), .ok (some p') => p == legacyMsg exP2pkh.tx code 0 1 && p' == legacyMsg (exTamper exP2pkh).tx code 0 1
+  | _, _ => false)
+-- the spent amount is committed for the witness input and not for the legacy one
+#guard exFails { exP2wpkh with us := [some ⟨10001, witnessV0Script exH2⟩] }
+#guard exOk { exP2pkh with us := [some ⟨10001, p2pkhScript exH1⟩] }
+-- the script being satisfied: one bit of the hash / program / key flipped; `NOP` appended (legacy: the script code is committed)
+#guard exFails { exP2pkh with us := [some ⟨10000, p2pkhScript (hx "c56c97834f6a1a27794af382f97a241fdcbde98b")⟩] }
+#guard exFails { exP2wpkh with us := [some ⟨10000, witnessV0Script (hx "6958c12f439e717907b50366d68412a61c06618d")⟩] }
+#guard exFails { exP2shMs with us := [some ⟨10000, p2shScript (List.replicate 20 7)⟩] }
+#guard exFails { exP2wshMs with us := [some ⟨10000, witnessV0Script (List.replicate 32 7)⟩] }
+#guard exFails { exP2pk with us := [some ⟨10000, p2pkScript exK3⟩] }
+#guard exFails { exP2pkh with us := [some ⟨10000, p2pkhNopScript exH1⟩] }
+-- (without the commitment to the script code the `NOP` variant would run to true: the interpreter itself accepts it when
+-- the signature check is replaced by one that accepts)
+#guard (Spec.Consensus.verifyScript (fun _ _ _ _ => true) (pushesOf [exSigA, exK1]) (p2pkhNopScript exH1) [] F0 ⟨1, 0, 0⟩).isNone
+-- an input whose transaction is edited into the coinbase shape is the known finding the hypothesis `nocb` excludes
+#guard exOk { exP2pkh with tx := { exP2pkh.tx with ins := exP2pkh.tx.ins.map fun t => { t with prevHash := List.replicate 32 0, prevIndex := 4294967295 } } }
+
+end
 
 end Pycoin.Validate
